@@ -6,7 +6,7 @@ ID = "C07"
 SECTIONS = ["ops", "fitters"]
 LEAN_MODULES = ["QExPy.Props.C07"]
 THEOREMS = ["QExPy.C07_poly_model", "QExPy.C07_lin", "QExPy.C07_quad", "QExPy.C07_expo",
-            "QExPy.C07_gauss", "QExPy.C07_fit_value", "QExPy.C07_fit_value_poly", "QExPy.C07_poly_design", "QExPy.C07_objective_poly",
+            "QExPy.C07_gauss", "QExPy.C07_gauss_even", "QExPy.C07_fit_value", "QExPy.C07_fit_value_poly", "QExPy.C07_poly_design", "QExPy.C07_objective_poly",
             "QExPy.C07_residual_def", "QExPy.C07_chi2_def", "QExPy.C07_chi2_points",
             "QExPy.C07_chi2_nonneg", "QExPy.C07_perr_sq", "QExPy.C07_corr_registered",
             "QExPy.C07_corr_diag", "QExPy.C07_corr_symm", "QExPy.C07_corr_bounded", "QExPy.C07_cov_roundtrip",
@@ -15,9 +15,14 @@ THEOREMS = ["QExPy.C07_poly_model", "QExPy.C07_lin", "QExPy.C07_quad", "QExPy.C0
 RULE = ("the C06 fits on the whole data set (every pre-set model, polynomial degrees 1-5, three user "
         "models, every sigma pattern incl. sigma_y with exact zeros, every data-passing form, 60 % "
         "rescaled to other units by 1e-12..1e12, nearly uncorrelated parameters, offset abscissae, "
-        "closed-form fits with parguess, fits made through Plot.fit), 4 evaluation points each plus "
+        "closed-form fits with parguess, fits made through Plot.fit; every number of the request in "
+        "every numeric type that represents it exactly and the uncertainties through every route "
+        "that writes them; y (and x) points recorded as repeated measurements, whose uncertainty is "
+        "the error on the mean / the standard deviation / the propagated error as chosen on the "
+        "point; generating parameters and guess on a mirrored or negative branch), 4 evaluation points each plus "
         "the smallest and largest abscissa of the data, evaluated as scalars (float, numpy float, "
-        "int), as a list and as an array, BEFORE AND AFTER a history (a returned value switched to "
+        "int, Fraction, numpy integers / float32 where exact), as a list (of floats, of typed "
+        "numbers) and as an array, BEFORE AND AFTER a history (a returned value switched to "
         "Monte Carlo and read, the result drawn on a plot and saved, the global method switched, "
         "re-reads) after which chi-squared, residuals, parameters, correlations and the printed "
         "result must also read as before; fit_function value/uncertainty, residuals (value "
@@ -79,6 +84,12 @@ def gen_cases(ctx, n):
                                   ("polynomial", 5))):
         cases.append(G.gen_case(ctx.rng, family=fam, degree=d, guess=True, want_range=False,
                                 sx=("none", "common")[k % 2]))
+    # argument types, repeated measurements as points, mirrored / negative parameter branches
+    # (C06's classes (3)-(5); here: chi-squared divides by the uncertainty each point REPORTS,
+    # fit_function is the model at the returned parameters on whichever branch they lie)
+    cases += C6.typed_cases(ctx.rng, want_range=False)[::2]
+    cases += C6.repeated_cases(ctx.rng)
+    cases += C6.signed_cases(ctx.rng, want_range=False)
     n0 = len(G.corpus(ID))
     # HISTORIES between two rounds of evaluating fit_function (every model family and every form
     # gets one with the result drawn on a plot; the others get one without a plot half of the time)
@@ -107,6 +118,16 @@ def gen_cases(ctx, n):
             cases.append(G.gen_case(ctx.rng, family=ctx.rng.choice(fams[3:] + ("custom:growth",)),
                                     want_range=False, noise_free=False, sy="yzeros"))
             continue
+        t = ctx.rng.random()
+        if t < 0.10:
+            cases.append(G.gen_typed(ctx.rng, want_range=False))
+            continue
+        if t < 0.16:
+            cases.append(G.gen_repeated(ctx.rng))
+            continue
+        if t < 0.22:
+            cases.append(G.gen_signed(ctx.rng, want_range=False, noise_free=False))
+            continue
         u = None
         if ctx.rng.random() < 0.6:
             u = (ctx.rng.choice(G.SCALES), ctx.rng.choice(G.SCALES))
@@ -120,7 +141,7 @@ def gen_cases(ctx, n):
 
 
 def correspond(ctx):
-    return X.run_c07(ctx, gen_cases(ctx, ctx.n(140, 20000)))
+    return X.run_c07(ctx, gen_cases(ctx, ctx.n(170, 20000)))
 
 
 def search(ctx, broken):
